@@ -177,9 +177,12 @@ def run_unit(ctx, u):
                 scaled_all.append(((llr * nv), nv))
                 if hard is not None:
                     # sign agreement with the hard decision of the same point (LLR>0 <-> bit 0)
-                    agree = ((llr > 0) == (hard == 0)) | ~sig
+                    # judged only where |Delta| is above the float32 cancellation floor of the two squared
+                    # distances (far outliers next to a decision boundary have no resolvable sign)
+                    resolvable = sig & (np.abs(delta) > 8e-6 * (np.abs(dv) + ref.scale)[:, None] ** 2)
+                    agree = ((llr > 0) == (hard == 0)) | ~resolvable
                     if agree.all():
-                        ctx.ok("soft:sign agrees with hard decision", int(sig.sum()))
+                        ctx.ok("soft:sign agrees with hard decision", int(resolvable.sum()))
                     else:
                         i, j = np.argwhere(~agree)[0]
                         ctx.violation(f"{kc}|{name}|soft:sign agrees with hard decision|disagrees", spec=s, received=complex(pts[i]), bit=int(j), llr=float(llr[i, j]), hard_bit=int(hard[i, j]), noise_var=nv)
